@@ -33,7 +33,8 @@ BUDGET = {"quick": 60, "thorough": 1200}
 CHUNK = 4
 PROBES = ["split_1n1", "empty_write", "multi_record_write", "limit_hit",
           "padding_seen", "read_max_lt_buffered", "rsl_negotiated",
-          "user_recordsize", "etm", "tls13", "sslv3", "null_cipher"]
+          "user_recordsize", "etm", "tls13", "sslv3", "null_cipher",
+          "resumed"]
 COMPONENTS_REAL = ["tlslite record layer, TLSRecordLayer read/write paths, "
                    "handshake, all pure-Python ciphers/MACs"]
 COMPONENTS_STUB = ["socket (FakeSocket/Pipe)", "os.urandom (per-node PRNG)",
@@ -89,6 +90,14 @@ def draw_config(ch, cell):
         sc["sset"]["padding_cb"] = PADS[ch.draw(len(PADS), "cfg.pad_s")]
         sc["sset"]["ticket_count"] = ch.draw(3, "cfg.tickets")
     sc["policy"] = ["ideal", "random", "random"][ch.draw(3, "cfg.policy")]
+    # the data phase may also run on a resumed connection (abbreviated
+    # handshake renegotiates the limits from the ServerHello extensions)
+    r = ch.draw(5, "cfg.resume")
+    if r == 1:
+        sc["resume"] = "id"
+    elif r == 2:
+        sc["resume"] = "ticket"
+        sc["sset"]["ticketKeys"] = ["66" * 32]
     return sc
 
 
@@ -154,6 +163,19 @@ def limit_in_force(sc, sender):
     return min(2 ** 14, peer)
 
 
+def _early(job, ch, sim, pair, sc, probes):
+    h = hashlib.sha256()
+    h.update(bytes(pair.link.c2s.wire_log))
+    h.update(bytes(pair.link.s2c.wire_log))
+    h.update(ch.digest().encode())
+    return {"violations": [], "nontrivial": False,
+            "key": "early", "digest": h.hexdigest(),
+            "faults": dict(sim.stats), "probes": probes, "steps": sim.steps,
+            "order": sim.order.hexdigest(), "states": [],
+            "streams": ch.streams(), "inconclusive": False,
+            "sample": {"scenario": sc}}
+
+
 def run(job, streams=None):
     seed = job["seed"]
     ch = kernel.Chooser(seed=seed) if streams is None else \
@@ -176,7 +198,44 @@ def run(job, streams=None):
                      (msg, suite.name, ver, sc["cset"].get(
                          "useEncryptThenMAC"))})
 
-    oc, os_, st = pair.handshake()
+    resumed = False
+    if sc.get("resume"):
+        from tlslite.api import SessionCache
+        cache = SessionCache() if sc["resume"] == "id" else None
+        oc, os_, st = pair.handshake(cache=cache)
+        if oc.kind == "ok" and os_.kind == "ok":
+            # short exchange so that TLS 1.3 tickets reach the client
+            first = sim_script.run_script(
+                sim, {"c": pair.c, "s": pair.s},
+                [["s", "w"], ["c", "r"], ["c", "close"], ["s", "r0"]],
+                lambda ep, op: {
+                    "w": lambda: ep.conn.writeAsync(b"first"),
+                    "r": lambda: ep.conn.readAsync(None, 5),
+                    "r0": lambda: ep.conn.readAsync(None, 1),
+                    "close": lambda: ep.conn.closeAsync()}[op[1]])
+            session = pair.c.conn.session
+            sim.links.remove(pair.link)
+            sim.eps.remove(pair.c)
+            sim.eps.remove(pair.s)
+            pair = nodes.Pair(sim, sc, policy=sc["policy"],
+                              wb_budget=kernel.Budget(40),
+                              delay_budget=kernel.Budget(40),
+                              names=("c", "s"),
+                              cnode=kernel.Node("c2", seed),
+                              snode=kernel.Node("s2", seed))
+            tap = {"c": taps.SendTap(pair.c.conn),
+                   "s": taps.SendTap(pair.s.conn)}
+            oc, os_, st = pair.handshake(session=session, cache=cache)
+            resumed = bool(oc.kind == "ok" and pair.c.conn.resumed)
+            if resumed:
+                probes["resumed"] = 1
+            if not (oc.kind == "ok" and os_.kind == "ok"):
+                # whether an offered session may break a handshake is C13's
+                # question, not this property's
+                probes["resume_handshake_failed"] = 1
+                return _early(job, ch, sim, pair, sc, probes)
+    else:
+        oc, os_, st = pair.handshake()
     done_hs = oc.kind == "ok" and os_.kind == "ok" and st == "idle"
     delivered = 0
     if not done_hs:
